@@ -95,6 +95,9 @@ func ProbeAll(idx *updog.Index, d *model.Data, o ProbeOpts) error {
 		}
 		for i := 0; i < len(d.Rows); i += rstride {
 			r := d.Rows[i]
+			if _, tagged := r[o.Unique]; !tagged {
+				continue // a row without the tag (e.g. without any value) is only visible in the universe count
+			}
 			u := model.Eq(o.Unique, r[o.Unique])
 			got, err := count(u)
 			if err != nil {
